@@ -28,6 +28,12 @@ def gen_program(rng, depth, budget, prop):
             acts.append(["release", nkids - 1])
         elif r < (0.6 if prop == "C11" else 0.45):
             acts.append(["stop", nkids - 1] + ([rng.randint(0, 2)] if prop == "C11" and rng.random() < 0.5 else []))
+    # afterwards: join / stop one of the earlier children while its siblings are still registered (a join that unregisters a
+    # child can then race with a stop() walking this thread's children)
+    if nkids >= 2 and rng.random() < (0.6 if prop == "C11" else 0.25):
+        for _ in range(rng.randint(1, 2)):
+            j = rng.randrange(nkids)
+            acts.append(["join", j] if rng.random() < 0.7 else ["stop", j])
     if rng.random() < 0.4:
         acts.insert(rng.randint(0, len(acts)), ["wait_stop"])
     if rng.random() < 0.3:
